@@ -5,6 +5,7 @@
   panic-capable sites regenerated from the source (unchecked type assertions, index/slice expressions, explicit
   panics) is exactly the expected one, each entry discharged by a named argument.
 -/
+import AuthProofs.StateInventory
 import AuthProofs.Ladder
 import AuthProofs.Splitter
 import AuthProofs.CodeEquiv
@@ -52,6 +53,9 @@ theorem code_trigger_path_never_panics (env : Go.Env) (rules : List Pb.TriggerRu
     (∃ b, Code.matches_ env m req = .ok b) :=
   ⟨⟨_, code_pqf env s⟩, ⟨_, code_mustTriggerCheck env rules req⟩, ⟨_, code_matches env m req⟩⟩
 
+/-- NO HIDDEN STATE: the model treats a check as a function of (configuration, request, store answers, clock, IdP and key-source answers, entropy); that is a faithful reading of the code only if nothing else survives from one check to the next. Regenerated on every run: every package-level variable and struct field of internal/server, internal/authz, internal/http, internal/oidc is the classified expectation, and handlers, filter, HTTP helpers and the Redis store own no mutable state (no verdict cache, handler cache, object pool, single-flight group or per-process copy of session data). -/
+theorem no_hidden_state : CheckPathInventory := check_path_inventory
+
 end AuthProps.C15
 
 #print axioms AuthProps.C15.verdict_wellformed
@@ -61,3 +65,4 @@ end AuthProps.C15
 #print axioms AuthProps.C15.no_unexpected_index_or_slice
 #print axioms AuthProps.C15.no_explicit_panics
 #print axioms AuthProps.C15.code_trigger_path_never_panics
+#print axioms AuthProps.C15.no_hidden_state
